@@ -92,6 +92,9 @@ FORCED = [
     [("#", ["restart"]), (None, ["RENAME other other2", "NOOP"]), (None, ["EXAMINE third"]), (None, ["APPEND third"]), (None, ["STATUS third (MESSAGES)"])],
     [("#", ["restart"]), (None, ["CREATE other3", "RENAME other3 other4"]), (None, ["STATUS third (MESSAGES)", "STATUS other (MESSAGES)"]), (None, ["SELECT third", "UID FETCH 1:* (FLAGS BODY.PEEK[HEADER.FIELDS (X-CID)])"])],
     [("#", ["restart"]), (None, ["RENAME third third2"]), (None, ["STATUS other (MESSAGES)"]), (None, ["EXAMINE other"]), (None, ["STATUS INBOX (MESSAGES)"])],
+    # ... the same with a renamed tree of several mailboxes (one database update per mailbox, each made with the table of active
+    # mailboxes locked) and two pairs of sessions waking two inactive mailboxes
+    [("#", ["restart"]), (None, ["RENAME tree tree2", "RENAME tree2 tree3"]), (None, ["STATUS third (MESSAGES)"]), (None, ["STATUS third (MESSAGES)"]), (None, ["STATUS fourth (MESSAGES)"]), (None, ["EXAMINE fourth"])],
 ]
 
 
@@ -113,7 +116,8 @@ async def setup_state(rig, nodeleted=False, gap=False, restart=False):
     s = rig.session("Z")
     await s.cmd("CREATE other")
     if restart:
-        await s.cmd("CREATE third")
+        for nm in ("third", "fourth", "tree", "tree/a", "tree/b", "tree/c", "tree/a/deep"):
+            await s.cmd(f"CREATE {nm}")
     table = {}
     if gap:
         # variant: a message that came first is gone again, so the MH message numbers (and the UIDs: 2..6) of what
@@ -136,6 +140,9 @@ async def setup_state(rig, nodeleted=False, gap=False, restart=False):
             cid, m = cids.make()
             await s.append("third", m, flags=[["\\Seen"], []][i])
             table[("third", i + 1)] = cid
+        cid, m = cids.make()
+        await s.append("fourth", m, flags=[])
+        table[("fourth", 1)] = cid
     await s.cmd("LOGOUT")
     if restart:
         await rig.restart()
@@ -652,6 +659,8 @@ def explore(spec, k, cmdset, counts, scratch, nsched, systematic):
     fifo_loop = run_sched(1, fifo_all_strategy)
     if fifo_loop is not None:
         fifo_loop._db_released_total = getattr(fifo_loop, "db_completions", 0)  # database round trips of the FIFO run
+    if forced_dense and len(cmdset) >= 5:
+        nsched = max(nsched, 80)  # (many short windows: one per mailbox of the renamed tree; random schedules find them, given enough of them)
     for i in range(nsched):
         run_sched(r1.randrange(1 << 30), r1.choice([random_strategy, random_strategy, one_at_a_time_strategy]))
         if violations:
